@@ -1,6 +1,7 @@
 package format
 
-// C08 on the real formatter (format.Source: parser, printer, text/tabwriter):
+// C08 on the real formatter (format.Source: parser, then by default the
+// internal/pretty printer):
 // a source is a fixed skeleton of tokens with symbolic bytes in the gaps
 // between them (so blanks, tabs, newlines, blank lines, commas, comment starts
 // and stray bytes all occur) or an arbitrary short byte string. For every
